@@ -9,7 +9,10 @@ CONFIG = {
                 "write names the first non-skipped error. The model mirrors writeToShardWithContext branch by branch; ConsistencyLevel values are "
                 "re-read from models/consistency.go each run; the model is diffed against the REAL coordinator.PointsWriter driven through "
                 "WritePointsPrivileged with gated fakes, exhaustively for <=3 owners x 7 named scenarios x all arrival orders x 4 levels x "
-                "coordinator owner/not owner, sampled for 4-5 owners and the full environment product.",
+                "coordinator owner/not owner, sampled for 4-5 owners and the full environment product. The REQUESTED level: for every byte string, "
+                "models.ParseConsistencyLevel accepts it iff it is an ASCII spelling in any letter case of any/one/quorum/all and then means that level; absent/empty means one "
+                "(requested_level_exact, requested_level_case_insensitive); that both write handlers start from ConsistencyLevelOne and pass a non-empty parameter to the parser is re-derived from handler.go each run; "
+                "the real parser is run on spellings, near misses and non-ASCII strings (Kelvin sign, dotted I, full-width letters).",
         "note": "Trusts Coq kernel, genconsts, the harness (arrival order enforced by observing goroutine states via runtime.Stack; timeout runs are "
                 "validated and repeated when the timer could have fired early). hh.Service/queue internals are C04, the HTTP layer and multi-shard "
                 "fan-out of WritePointsPrivileged are not modelled; w.closing (shutdown) is not modelled.",
@@ -17,6 +20,7 @@ CONFIG = {
     },
     "harness": "h_c03",
     "level": "proof",
+    "extra_proof_files": ["LevelProofs"],
     "n": {"quick": 2000, "thorough": 40000},
     "shard": 1100,
     "search_rounds": 1,
